@@ -703,7 +703,7 @@ def _run_timed(ns, cfg, hist, props=None, on_step=None):
     return w, L
 
 
-def _c19_cross(ns, cfg, cfgB, HA3, HB, merged3, cross):
+def _c19_cross(ns, cfg, cfgB, HA3, HB, merged3, cross, la=None):
     """V3: a callback of address A acts on address B (fail-over).  B must behave as if the
     application had made that call itself, at top level, at the same moment.
     Returns (diff or None, info)."""
@@ -721,7 +721,7 @@ def _c19_cross(ns, cfg, cfgB, HA3, HB, merged3, cross):
     if hit["i"] is None:
         return None, "not-fired"
     k = hit["i"]
-    top = dict((kk, vv) for kk, vv in cross.items() if kk != "when")
+    top = dict((kk, vv) for kk, vv in cross.items() if kk not in ("when", "chain"))
     HB3 = []
     for idx, (t, st) in enumerate(merged3):
         if st.get("addr") == "B" and st is not merged3[k][1]:
@@ -735,6 +735,12 @@ def _c19_cross(ns, cfg, cfgB, HA3, HB, merged3, cross):
     jb = obs_log(wj, "B", rename_ids=True, with_dispatch=False)
     sb = obs_log(wb3, "B", rename_ids=True, with_dispatch=False)
     d = first_diff(sb, jb)
+    if d is None and la is not None:
+        # address A itself must not notice that its callback acted elsewhere (or chained a Deferred)
+        ja = obs_log(wj, "A", rename_ids=True)
+        d2 = first_diff(la, ja)
+        if d2 is not None:
+            return ("A", d2), "fired"
     return (("B", d) if d is not None else None), "fired"
 
 
@@ -846,6 +852,8 @@ def c19_chunk(args):
                              "k": {"topic": "fo/x", "message": "fo", "qos": rng.randint(0, 2)}, "when": "any"}
                 else:
                     cross = {"op": "app.call", "addr": "B", "m": "subscribe", "a": ["fo/#", rng.randint(0, 2)], "when": "any"}
+                if rng.random() < 0.35:
+                    cross["chain"] = True      # ... and returns that call's Deferred from its callback
                 HA3 = list(HA)
                 HA3[kx] = (HA[kx][0], dict(HA[kx][1], then=[cross]))
                 ia = ib = 0
@@ -867,15 +875,17 @@ def c19_chunk(args):
                     else:
                         merged3.append(HB[ib])
                         ib += 1
-                bad3, info3 = _c19_cross(ns, cfg, cfgB2, HA3, HB, merged3, cross)
+                bad3, info3 = _c19_cross(ns, cfg, cfgB2, HA3, HB, merged3, cross, la)
                 out["probes"]["cross_callback_" + info3] = out["probes"].get("cross_callback_" + info3, 0) + 1
                 if info3 == "fired":
                     out["interleavings"] += 1
                 if bad3 is not None:
                     nm, d = bad3
                     out["viol"].append({"sig": "C19.V3:%s" % _dkind(d), "seed": seed, "kind": "c19",
-                                        "msg": "address B behaves differently when the call is made from a callback of address A instead of at top level: entry %d top-level=%r from-callback=%r"
-                                               % (d[0], d[1], d[2]),
+                                        "msg": ("address B behaves differently when the call is made from a callback of address A instead of at top level: entry %d top-level=%r from-callback=%r"
+                                                % (d[0], d[1], d[2])) if nm == "B" else
+                                               ("address A behaves differently when one of its callbacks acts on address B%s: entry %d alone=%r joint=%r"
+                                                % (" and returns that call's Deferred" if cross.get("chain") else "", d[0], d[1], d[2])),
                                         "nsteps": len(merged3),
                                         "replay": {"kind": "c19", "mode": "cross", "property": "C19", "signature": "C19.V3", "config": cfg,
                                                    "cfgB": cfgB2, "HA": HA3, "HB": HB, "merged": merged3, "cross": cross, "seed": seed}})
@@ -941,9 +951,11 @@ def c19_replay(ns, rp):
     merged = [(t, s) for t, s in rp["merged"]]
     cfg = rp["config"]
     if rp.get("mode") == "cross":
-        bad3, info3 = _c19_cross(ns, cfg, rp.get("cfgB", cfg), HA, HB, merged, rp["cross"])
+        HA0 = [(t, (dict((k_, v_) for k_, v_ in s_.items() if k_ != "then") if s_.get("then") == [rp["cross"]] else s_)) for t, s_ in HA]
+        wa0, _ = _run_timed(ns, cfg, HA0)
+        bad3, info3 = _c19_cross(ns, cfg, rp.get("cfgB", cfg), HA, HB, merged, rp["cross"], obs_log(wa0, "A", rename_ids=True))
         if bad3 is not None:
-            return False, "address B differs at entry %d: top-level=%r from-callback=%r" % bad3[1]
+            return False, "address %s differs at entry %d: expected=%r joint=%r" % ((bad3[0],) + tuple(bad3[1]))
         return True, ""
     wa, _ = _run_timed(ns, cfg, HA)
     wb, _ = _run_timed(ns, rp.get("cfgB", cfg), HB)
